@@ -6,34 +6,35 @@ import (
 
 // Knobs steer the seeded scheduler. All probabilities are per scheduler step.
 type Knobs struct {
-	Sync           bool    // time-ordered execution: deliver what is due, fire what expired, else advance the clock
-	PDrop          float64 // drop a deliverable envelope
-	PDup           float64 // deliver a copy and keep the envelope
-	PEarlyTimer    float64 // spurious OnTimeout(current h, current v) before the deadline
-	PStaleTimer    float64 // OnTimeout tagged with another height/view
-	PAdvance       float64 // advance the clock to the next deadline although envelopes are waiting
-	PDelayReset    float64 // leave a node that accepted a block un-Reset for this step
-	PNewTx         float64 // a new transaction appears (gossiped to all pools unless missing)
-	PTxMissing     float64 // probability that a node does not get a new transaction
-	PBadTx         float64 // a new transaction is invalid (only adversaries propose those)
-	PSupply        float64 // supply one requested transaction to a node
-	PUnasked       float64 // OnTransaction with a transaction nobody asked for
-	PRestart       float64 // amnesia restart of a node of RestartSet
-	PCut           float64 // start a partition of CutSet
-	PHeal          float64 // heal the partition
-	PSyncLedger    float64 // a node that is behind copies the next block from a peer
-	PAdv           float64 // adversary move
-	PNotify        float64 // OnNewTransaction to a subscribed node when its pool is non-empty
-	PTxAtPoolRead  float64 // a transaction arrives right after an (empty) read of the verified pool, i.e. inside the library call
-	NotifyAll      bool    // deliver OnNewTransaction to every subscribed node as soon as a tx arrives
-	FIFO           bool    // always pick the oldest deliverable envelope / lowest node id (deterministic schedule)
-	SlowNode       int     // node with extra inbound latency (-1: none)
-	SlowExtra      time.Duration
-	ResetDelayMax  time.Duration // the application calls Reset up to this long after accepting a block
-	ResetDelayNode int           // only this node delays its Resets (-1: every node)
-	MaxRestarts    int
-	RestartSet     []int
-	CutSet         []int
+	Sync            bool    // time-ordered execution: deliver what is due, fire what expired, else advance the clock
+	PDrop           float64 // drop a deliverable envelope
+	PDup            float64 // deliver a copy and keep the envelope
+	PEarlyTimer     float64 // spurious OnTimeout(current h, current v) before the deadline
+	PStaleTimer     float64 // OnTimeout tagged with another height/view
+	PAdvance        float64 // advance the clock to the next deadline although envelopes are waiting
+	PDelayReset     float64 // leave a node that accepted a block un-Reset for this step
+	PTimeoutDecided float64 // OnTimeout(current h, v) on a node that accepted a block and was not Reset yet
+	PNewTx          float64 // a new transaction appears (gossiped to all pools unless missing)
+	PTxMissing      float64 // probability that a node does not get a new transaction
+	PBadTx          float64 // a new transaction is invalid (only adversaries propose those)
+	PSupply         float64 // supply one requested transaction to a node
+	PUnasked        float64 // OnTransaction with a transaction nobody asked for
+	PRestart        float64 // amnesia restart of a node of RestartSet
+	PCut            float64 // start a partition of CutSet
+	PHeal           float64 // heal the partition
+	PSyncLedger     float64 // a node that is behind copies the next block from a peer
+	PAdv            float64 // adversary move
+	PNotify         float64 // OnNewTransaction to a subscribed node when its pool is non-empty
+	PTxAtPoolRead   float64 // a transaction arrives right after an (empty) read of the verified pool, i.e. inside the library call
+	NotifyAll       bool    // deliver OnNewTransaction to every subscribed node as soon as a tx arrives
+	FIFO            bool    // always pick the oldest deliverable envelope / lowest node id (deterministic schedule)
+	SlowNode        int     // node with extra inbound latency (-1: none)
+	SlowExtra       time.Duration
+	ResetDelayMax   time.Duration // the application calls Reset up to this long after accepting a block
+	ResetDelayNode  int           // only this node delays its Resets (-1: every node)
+	MaxRestarts     int
+	RestartSet      []int
+	CutSet          []int
 }
 
 // Hooks lets a profile script parts of a run.
@@ -329,6 +330,14 @@ func (c *Cluster) Step(hooks *Hooks) bool {
 			}
 		}
 	}
+	if c.chance(k.PTimeoutDecided) {
+		for _, n := range c.HonestLive() {
+			if n.PendingReset {
+				n.Timeout(n.D.BlockIndex, n.D.ViewNumber, "while-decided")
+				return true
+			}
+		}
+	}
 	if c.chance(k.PEarlyTimer) {
 		if l := c.HonestLive(); len(l) > 0 {
 			n := l[c.pick(len(l))]
@@ -496,6 +505,13 @@ func (c *Cluster) supplyOne() bool {
 		}
 		sortHashes(hs)
 		h := hs[c.pick(len(hs))]
+		if _, inPool := n.Pool[h]; !inPool && !c.Cfg.K.Sync && c.Rng.Intn(4) == 0 {
+			// the transaction reaches the node's pool by gossip first; the application's
+			// OnTransaction call for it comes later (the request stays open)
+			n.Pool[h] = c.Universe[h]
+			c.emit(&Event{Node: n.ID, Kind: KNet, Tx: c.Universe[h], Note: "gossiped-before-OnTransaction"})
+			return true
+		}
 		n.SupplyTx(c.Universe[h])
 		c.afterAPI(n)
 		return true
